@@ -111,7 +111,7 @@ def cxx_function(f, in_class):
         if s:
             body.append(s)
     if f.kind == "ctor":
-        head = "%s(%s) : id(%s)" % (f.cls, ", ".join(params), "a0" if f.params else "100")
+        head = "%s(%s) : id(%s)" % (f.cls, ", ".join(params), ("a0" if f.main else "7") if f.params else "100")
         if not f.params:
             body = []          # the default constructor is silent (the wrapper for by-value results uses it)
     elif f.kind == "dtor":
@@ -277,7 +277,15 @@ def emit_call(E, f, cname, ndef, tt, rnd, self_obj=None):
     exp = [callee]
     rprint, rexp = "", ""
     call = "%s(%s)" % (cname, ", ".join(args))
-    if k == "void":
+    if f.kind == "ctor":
+        cap = E.cap_t(f.cls)
+        iname, ifid = E.ident_name(f.cls)
+        args.append("&rv")
+        lines.append("%s rv; %s *r = %s(%s);" % (cap, cap, cname, ", ".join(args)))
+        lines.append("int idr = %s(r);" % iname)
+        exp.append("C %d this=7" % ifid)
+        rprint, rexp = 'printf("%d#%d", (int)(r == &rv), idr);', "1#7"
+    elif k == "void":
         lines.append(call + ";")
     elif k == "native":
         lines.append("%s r = %s;" % (rt, call))
@@ -331,7 +339,7 @@ def build_driver(spec, headers, rounds):
             "setvbuf(stdout, NULL, _IONBF, 0);"]
     # objects of every class: a (id 11) is passed as argument, b (id 22) is `this`
     for c in spec.classes:
-        ctor = [f for f in spec.funcs if f.cls == c and f.kind == "ctor" and f.params][0]
+        ctor = [f for f in spec.funcs if f.cls == c and f.kind == "ctor" and f.main][0]
         cname = spec.c_names(ctor)[0][0]
         cap = E.cap_t(c)
         iname, ifid = E.ident_name(c)
@@ -351,7 +359,7 @@ def build_driver(spec, headers, rounds):
             E.exp += ["C %d this=100" % ifid, "R %d ret=100" % ifid]
             E.ctx += [{"function": "%s (%s)" % (spec.fdecl(dflt[0])["decl"], cname), "values": {}, "func": dflt[0]}] * 2
     for f in spec.funcs:
-        if f.kind in ("ctor", "dtor") or f.name == "ident":
+        if f.kind == "dtor" or f.name == "ident" or (f.kind == "ctor" and (f.main or not f.params)):
             continue
         for cname, ndef, tt in spec.c_names(f):
             for rnd in range(rounds):
